@@ -23,6 +23,7 @@ import (
 	"strings"
 	"sync"
 	"sync/atomic"
+	"syscall"
 	"testing"
 	"time"
 
@@ -472,13 +473,41 @@ func xuListen() (net.Listener, address.Address, error) {
 	return ln, address.Address(ln.Addr().String()), nil
 }
 
+var (
+	xuDeadOnce sync.Once
+	xuDead     address.Address
+	xuDeadErr  error
+)
+
+// xuDeadAddr is a loopback address nobody listens on: a socket that is bound (so the port
+// cannot be handed to any other listener) but never listens; connecting to it is refused.
+func xuDeadAddr() (address.Address, error) {
+	xuDeadOnce.Do(func() {
+		fd, err := syscall.Socket(syscall.AF_INET, syscall.SOCK_STREAM, 0)
+		if err != nil {
+			xuDeadErr = err
+			return
+		}
+		if err = syscall.Bind(fd, &syscall.SockaddrInet4{Port: 0, Addr: [4]byte{127, 0, 0, 1}}); err != nil {
+			xuDeadErr = err
+			return
+		}
+		sa, err := syscall.Getsockname(fd)
+		if err != nil {
+			xuDeadErr = err
+			return
+		}
+		xuDead = address.Address(fmt.Sprintf("127.0.0.1:%d", sa.(*syscall.SockaddrInet4).Port))
+	})
+	return xuDead, xuDeadErr
+}
+
 func xuNewWorker(maxM int, needHTTP, needGRPC bool, watch time.Duration) (*xuWorker, error) {
 	w := &xuWorker{maxM: maxM, watch: watch}
-	ln, dead, err := xuListen()
+	dead, err := xuDeadAddr()
 	if err != nil {
 		return nil, err
 	}
-	_ = ln.Close()
 	w.dead = dead
 	if needHTTP {
 		ln, addr, err := xuListen()
